@@ -332,6 +332,10 @@ func (w *World) DataDecls() string {
 	for _, n := range names {
 		emit(n)
 	}
+	// dynamic type ids as named constants for spec files
+	for _, n := range w.typeNames {
+		fmt.Fprintf(&b, "(define-fun TID_%s () Int %d)\n", sanitize(n), w.typeIDs[n])
+	}
 	return b.String()
 }
 
